@@ -4,7 +4,9 @@ package sctp
 // swarm configuration generator.
 
 import (
+	"errors"
 	"fmt"
+	"io"
 	"sort"
 	"time"
 )
@@ -121,6 +123,7 @@ type xferDir struct {
 	readPause int           // pause after this many reads (0 = never)
 	pauseFor  time.Duration // length of the pause
 	setRecvParams bool      // receiver mirrors the reliability params on its stream object
+	shortReads    bool      // the reader sometimes offers a buffer that is too small first
 	recvUnordered int       // directed scenarios: 1 = receiver configures its stream object unordered, 2 = ordered
 
 	tx         *simStream
@@ -310,6 +313,44 @@ func (x *xfer) gotStream(ep *endpoint, sid uint16, s *Stream) *simStream {
 				time.Sleep(d.pauseFor)
 				vsimWoke(h)
 			}
+			if d != nil && d.shortReads && w.wtape.intn(3) == 0 {
+				// a read into a buffer that may be too small: must report io.ErrShortBuffer and keep the
+				// message (C18); the byte accounting must not move (C11)
+				small := buf[:pick(w.wtape, 0, 1, 2, 16, 60, 100, 700, 1200)]
+				before := accReasmCounter(st.s)
+				rs := w.read(st, small, x.index)
+				if errors.Is(rs.err, io.ErrShortBuffer) {
+					w.probe("short-buffer-read")
+					if rs.n <= len(small) {
+						w.violate("C18", "short-buffer-length", "%s stream %d: ReadSCTP into %d bytes returned ErrShortBuffer with n=%d", ep.name, sid, len(small), rs.n)
+					}
+					if after := accReasmCounter(st.s); after < before && d.reliable() {
+						w.violate("C11", "short-read-released-bytes", "%s stream %d: a read that failed with ErrShortBuffer changed the queued-byte counter from %d to %d although the message is still queued", ep.name, sid, before, after)
+					}
+					// the adequate read that follows must return that same message
+					r2 := w.read(st, buf, x.index)
+					if r2.err != nil || r2.n != rs.n {
+						w.violate("C18", "short-buffer-lost-message", "%s stream %d: after ErrShortBuffer (message of %d bytes) the next read returned n=%d err=%v", ep.name, sid, rs.n, r2.n, r2.err)
+						st.readerDone = true
+						return
+					}
+					nread++
+					if x.onRead != nil {
+						x.onRead(d, r2)
+					}
+					continue
+				}
+				if rs.err != nil {
+					st.readErr = rs.err
+					st.readerDone = true
+					return
+				}
+				nread++
+				if x.onRead != nil {
+					x.onRead(d, rs)
+				}
+				continue
+			}
 			r := w.read(st, buf, x.index)
 			if r.err != nil {
 				st.readErr = r.err
@@ -462,6 +503,7 @@ func genDirs(w *world, o xferOpts) []*xferDir {
 			if tp.intn(4) == 0 {
 				d.readDelay = time.Duration(1+tp.intn(50)) * time.Millisecond
 			}
+			d.shortReads = tp.intn(3) == 0
 			if o.slowReaders && tp.intn(2) == 0 {
 				d.readPause = 1 + tp.intn(5)
 				d.pauseFor = time.Duration(1+tp.intn(20)) * time.Second
